@@ -126,8 +126,52 @@ def install(it):
             return mk_real(z3.If(v.e < 0, -v.e, v.e))
         raise Unsupported('abs')
 
+    def _char_predicate_over_symbolic_str(it, gen, which):
+        """all()/any() of a generator expression `P(c) for c in s` where s is
+        a symbolic str and P only looks at the character (methods of c,
+        constants, boolean operators): a deterministic function of s, given
+        as an uninterpreted boolean of s (one function per predicate text).
+        Returns None when the argument is not of that shape."""
+        import ast as _ast
+        if not isinstance(gen, ops.LazyGen):
+            return None
+        node = gen.node
+        if len(node.generators) != 1:
+            return None
+        g = node.generators[0]
+        if g.ifs or g.is_async or not isinstance(g.target, _ast.Name):
+            return None
+        var = g.target.id
+        for nd in _ast.walk(node.elt):
+            if isinstance(nd, _ast.Name) and nd.id != var:
+                return None
+            if isinstance(nd, (_ast.Lambda, _ast.Await, _ast.Yield,
+                               _ast.YieldFrom, _ast.NamedExpr)):
+                return None
+            if isinstance(nd, _ast.Call) and not (
+                    isinstance(nd.func, _ast.Attribute)
+                    and isinstance(nd.func.value, _ast.Name)
+                    and nd.func.value.id == var):
+                return None
+        src = it.eval(g.iter, gen.fr)
+        if not isinstance(src, SStr):
+            return None
+        from . import strings
+        import hashlib as _h
+        key = _h.sha1((which + ':' + _ast.dump(node.elt)).encode()
+                      ).hexdigest()[:12]
+        fn = strings.ufun('py_%s_chars_%s' % (which, key),
+                          z3.StringSort(), z3.BoolSort())
+        it.trusted.add('all()/any() of a per-character predicate over a '
+                       'symbolic string: uninterpreted function of the '
+                       'string')
+        return mk_bool(fn(src.e))
+
     @builtin('all')
     def _all(it, a, kw):
+        r = _char_predicate_over_symbolic_str(it, a[0], 'all')
+        if r is not None:
+            return r
         for x in it.iterate(a[0], lazy=True):
             if not it.truth(x):
                 return False
@@ -135,6 +179,9 @@ def install(it):
 
     @builtin('any')
     def _any(it, a, kw):
+        r = _char_predicate_over_symbolic_str(it, a[0], 'any')
+        if r is not None:
+            return r
         for x in it.iterate(a[0], lazy=True):
             if it.truth(x):
                 return True
@@ -909,8 +956,18 @@ def bytes_method(it, recv, name, args, kw):
     if isinstance(recv, (bytes, bytearray)) and not _has_sym(args):
         return it.host_call(getattr(bytes(recv), name), *args, **kw)
     if name == 'startswith':
+        if len(args) > 1 or kw:
+            # bytes.startswith(prefix, start[, end]) == the window starts
+            # with the prefix
+            start = args[1] if len(args) > 1 else None
+            end = args[2] if len(args) > 2 else None
+            return ops.bytes_startswith(
+                it, ops.bytes_slice(it, recv, slice(start, end, None)),
+                args[0])
         return ops.bytes_startswith(it, recv, args[0])
     if name == 'endswith':
+        if len(args) > 1 or kw:
+            raise Unsupported('bytes.endswith with start/end')
         sfx = args[0]
         if not isinstance(sfx, bytes):
             raise Unsupported('endswith symbolic suffix')
